@@ -1,6 +1,6 @@
 #!/usr/bin/env python3
 """Regenerates MANIFEST.json from the table below (single source of truth)."""
-import json, subprocess
+import json, os, subprocess
 from pathlib import Path
 
 V = Path(__file__).resolve().parent.parent
@@ -232,7 +232,8 @@ man = {
         "add_only": True,
     },
     "engines": [
-        {"name": m, "path": f"spec/{m}.tla", "serves_properties": sorted(set(ps)), "kind_free_text": "TLA+ module checked with TLC 1.8"}
+        {"name": m, "path": f"spec/{m}.tla" if os.path.exists(f"/verif/spec/{m}.tla") else f"spec/apalache/{m}.tla", "serves_properties": sorted(set(ps)),
+         "kind_free_text": "TLA+ module checked with TLC 1.8" if os.path.exists(f"/verif/spec/{m}.tla") else "typed TLA+ abstraction, inductive invariant checked with Apalache 0.58 (thorough tier)"}
         for m, ps in sorted(engines.items())
     ],
     "checks": checks,
